@@ -112,7 +112,12 @@ Definition sds_line (view : Z) (ty : Z -> Z) (order : Z -> list Z -> list Z) (kd
   [TS view; TI k; TI (zlen (ds_dims d))] ++ map TI (ds_dims d) ++ [TI (ty (ds_nt d)); TH (order (ds_nt d) (ds_data d))].
 
 Definition same_order (_ : Z) (b : list Z) := b.
-Definition same_type (nt : Z) := nt.
+
+(** the number type as every view names it.  The flavour bits say how the file stores the numbers, and a file
+    records "native" as the machine class of the writing host: on this (little-endian) host that is the
+    little-endian class for numbers and the standard class for characters. *)
+Definition same_type (nt : Z) : Z :=
+  if nt_native nt then (if (nt_base nt =? 3) || (nt_base nt =? 4) then nt_base nt else nt_base nt + 16384) else nt.
 
 (** every dataset, whoever wrote it, through: the single-file SDS calls, the multi-file SD calls, the
     netCDF-style calls, the Vgroup/Vdata records that describe SD objects, and the SD calls once the Vgroup
@@ -132,7 +137,7 @@ Definition pal_tok (p : option (list Z)) : list tok :=
   match p with Some b => [TH b] | None => [TS w_nopal] end.
 
 Definition lut_toks (p : option (list Z)) : list tok :=
-  match p with Some b => [TS w_lut; TI 3; TI 21; TI 0; TI 256; TH b] | None => [TS w_nolut] end.
+  match p with Some b => [TS w_lut; TI 3; TI 1; TI 0; TI 256; TH b] | None => [TS w_nolut] end.
 
 (** the interlace recorded in the file: DF24 stores the data as handed over, GR always stores pixel interlace *)
 Definition stored_il (writer : Z) (m : image) : Z := if writer =? 1 then im_il m else 0.
@@ -144,10 +149,12 @@ Definition has_rig (writer : Z) (m : image) : bool :=
 Definition pixels (m : image) (ril : Z) : list Z :=
   relayout (im_il m) ril (im_x m) (im_y m) (im_ncomp m) (im_data m).
 
+(** ril < 0: the reader made no interlace request.  GR then hands the pixels over in the interlace it reports for
+    the image, the 24-bit calls in pixel interlace. *)
 Definition gr_line (view writer ril : Z) (km : Z * image) : line :=
   let (k, m) := km in
   [TS view; TI k; TI (im_x m); TI (im_y m); TI (im_ncomp m); TI (im_nt m); TI (stored_il writer m);
-   TH (pixels m ril)] ++ lut_toks (im_pal m).
+   TH (pixels m (if ril <? 0 then stored_il writer m else ril))] ++ lut_toks (im_pal m).
 
 Definition dfr8_line (km : Z * image) : line :=
   let (k, m) := km in
@@ -155,7 +162,7 @@ Definition dfr8_line (km : Z * image) : line :=
 
 Definition df24_line (writer ril : Z) (km : Z * image) : line :=
   let (k, m) := km in
-  [TS w_df24; TI k; TI (im_x m); TI (im_y m); TI (stored_il writer m); TH (pixels m ril)].
+  [TS w_df24; TI k; TI (im_x m); TI (im_y m); TI (stored_il writer m); TH (pixels m (if ril <? 0 then 0 else ril))].
 
 Definition vgi_line (km : Z * image) : line :=
   let (k, m) := km in
